@@ -41,18 +41,69 @@ def real_backend_pass(cov, cases, viol_sink):
     cov["real_backend_runs"] = tot
 
 
+def chained_coefficient_cases():
+    """coefficients that leave (-p, 2^256) before reduction: chains of divisions by constants (products of field inverses), negations and
+    large constants, each result used in a constraint"""
+    out = []
+    for divs in ((3, 5), (3, 5, 7), (7, 11, 13, 17)):
+        for neg in (0, 1):
+            prog = [["input", 0, "priv", 0], ["input", 1, "priv", 1]]
+            r = 0; nreg = 2
+            if neg:
+                prog.append(["un", nreg, "neg", 0]); r = nreg; nreg += 1
+            for d in divs:
+                prog += [["const", nreg, ["int", d]], ["bin", nreg + 1, "truediv", r, nreg]]; r = nreg + 1; nreg += 2
+            prog += [["bin", nreg, "mul", r, 1], ["bin", nreg + 1, "add", nreg, r], ["bin", nreg + 2, "mul", nreg + 1, nreg + 1]]
+            x = 1
+            for d in divs: x *= d
+            out.append(dict(cfg=dict(p=progs.BN, n=8, res=2, ign=0), prog=prog, ins=[x * 2, 3, 1, 1], matrix="chained-coefficients:%s:%d" % ("/".join(map(str, divs)), neg)))
+    return out
+
+
+def files_pass(cov, cases, sink):
+    """completeness at the level of the artefacts: the witness file written by the snarkjs backend's prove() satisfies the
+    constraint file written by it (independent decoders), for runs that completed with error checking on"""
+    import copy, decoders
+    sub = [copy.deepcopy(c) for c in cases if c["cfg"]["p"] == progs.BN and not c["cfg"]["ign"] and not uses_ignore(c["prog"]) and not c.get("nomodel")]
+    sub = [c for c in sub if str(c.get("matrix", "")).startswith("chained")] + [c for c in sub if not str(c.get("matrix", "")).startswith("chained")][:60]
+    for i, c in enumerate(sub): c.update(id=i, prove=1, full=1)
+    try:
+        recs = progs.run_impl_cases(sub, full=True, real_backend="snarkjs")
+    except Exception as e:
+        sink.append(dict(kind="harness", concrete=False, what="snarkjs file pass failed", detail=str(e)[-800:])); return
+    p = progs.BN; n = 0
+    for c, r in zip(sub, recs):
+        if r.get("exn") is not None or "files" not in r or "witness.wtns" not in r.get("files", {}): continue
+        n += 1
+        try:
+            prime, vals = decoders.decode_wtns(bytes.fromhex(r["files"]["witness.wtns"]))
+            rr = decoders.decode_r1cs(bytes.fromhex(r["files"]["circuit.r1cs"]))
+        except decoders.Bad as e:
+            sink.append(dict(kind="oracle", op="files", key="malformed", what="prove() wrote a file the independent decoder rejects: %s" % e, case=dict(cfg=c["cfg"], prog=c["prog"], ins=c["ins"]))); continue
+        if len(vals) != rr["nwires"]: continue
+        ev = lambda lc: sum(cf * vals[w] for w, cf in lc) % p
+        for k, (a, b, cc) in enumerate(rr["cons"]):
+            if (ev(a) * ev(b) - ev(cc)) % p:
+                sink.append(dict(kind="oracle", op="files", key="file-witness-violates-file-constraint",
+                                 what="the witness written by prove() violates constraint %d of the constraint file written by prove()" % k,
+                                 case=dict(cfg=c["cfg"], prog=c["prog"], ins=c["ins"])))
+                break
+    cov["file_level_runs"] = n
+
+
 def post(cov, cases, recs):
     cov["completed_runs_checked"] = sum(1 for c, r in zip(cases, recs) if r["exn"] is None and not c["cfg"]["ign"])
     cov["constraints_evaluated"] = sum(r["ncons"] for c, r in zip(cases, recs) if r["exn"] is None and not c["cfg"]["ign"])
     sink = []
     real_backend_pass(cov, cases, sink)
-    return sink[:6]
+    files_pass(cov, cases, sink)
+    return sink[:8]
 
 
 def run(tier, seed):
     # deterministic part: every assertion / decomposition / division x operand kinds x the ways a statement can be reached
     # (true / false guards, nesting, lazy branches, block API), and hash gadgets followed by uses of the shared constants
-    pending = matrixcases.assertion_contexts(tier) + matrixcases.hash_then_use()
+    pending = matrixcases.assertion_contexts(tier) + matrixcases.hash_then_use() + chained_coefficient_cases()
     return tracecheck.run(PID, tier, seed, PROFILE, oracle, n_quick=len(pending) + 450, n_thorough=len(pending) + 8000, post=post, mask=1 | 2 | 8 | 32 | 128,
                           casegen=matrixcases.with_pending(pending, PROFILE))
 
